@@ -30,7 +30,7 @@ import numpy as np
 from .. import common as C
 
 PROP = "C19"
-GEN_REGIONS: List[str] = ["Rms"]
+GEN_REGIONS: List[str] = ["Rms", "DfWrappers"]
 THEOREMS = {
     "SpecKitV.Lemmas.Rms": ["trapz_sq_nonneg", "trapz_append", "integralRms_spec", "integralRms_none", "rms_monotone",
                             "rms_additive_at_grid", "rms_superadditive", "detrend0_sum_zero", "detrend0_const", "detrend0_idem"],
@@ -45,6 +45,11 @@ THEOREMS = {
                               "gen_detrend_poly_structure", "gen_detrend0_sum_zero", "gen_detrend0_idem", "gen_detrend0_const",
                               "RmsGen.lsPolyfit_contract", "gen_detrend_orthogonal", "gen_detrend_kills_poly", "gen_detrend_short_zero",
                               "gen_detrend_idempotent", "gen_detrend_eq_detr"],
+    # region DfWrappers (vk/regions/df_wrappers.py -> Gen/DfWrappers.lean): dsp.df_detrend translated WHOLE on a value model of frames in a Python
+    # object store, proved equal to the hand model Model/DfWrappers.lean for every input; per-column transfer of the RmsGen theorems
+    "SpecKitV.Props.DfWrappersGen": ["gen_df_detrend_eq_model", "gen_df_detrend_spec", "gen_df_detrend_input_untouched", "gen_df_detrend_rejects_iff",
+                                     "gen_df_detrend_column_props", "gen_df_detrend_column_order0", "gen_df_detrend_defaults",
+                                     "DfAux.col?_setCol", "DfAux.names_setCol"],
 }
 CONTRACTS = ["np.polyfit(t, x, deg) returns the least-squares polynomial of degree deg on the abscissae t = 0..len-1 (orders >= 1 of "
              "polynomial_detrend are not modelled beyond this contract: the projection facts are proved for ANY orthonormal basis of the "
@@ -62,7 +67,16 @@ CONTRACTS = ["np.polyfit(t, x, deg) returns the least-squares polynomial of degr
              "np.polyfit is a PARAMETER `polyfit` of Gen.polynomial_detrend (Option-valued: none = it raises); assumed of it (RmsGen.PolyfitLS, only in the "
              "theorems about orders >= 1): on t = 0..n-1 and deg < n it does not raise and returns deg+1 coefficients whose residual is orthogonal to "
              "1, t, .., t^deg (normal equations of the least-squares fit); the contract is proved consistent (RmsGen.lsPolyfit_contract) and in the "
-             "differential run the driver answers `polyfit` with NumPy's own coefficients (or `raises` where NumPy's polyfit raises)"]
+             "differential run the driver answers `polyfit` with NumPy's own coefficients (or `raises` where NumPy's polyfit raises)",
+             # region DfWrappers (lean/SpecKitV/Np/DfWrappers.lean): pandas operations as Lean DEFINITIONS on a value model of frames (driver op gdfdt)
+             "NpDf.Frame / Col / Heap: a DataFrame = ordered columns (label, dtype.kind, one value per row; non-numeric values are opaque tokens) + row count + "
+             "row index, a MUTABLE object of a Python object store; NpDf.copy = df.copy() (new object, same value); duplicate / non-string labels and complex "
+             "columns are outside the model",
+             "NpDf.Frame.empty = df.empty; Frame.names = df.columns.tolist(); Frame.hasCol = `c in df.columns`; NpDf.getitem = df[c] (.kind = dtype.kind, .vals = "
+             ".values); NpDf.kindIn k [chars] = `k in \"chars\"`; NpDf.forEach = a for-loop whose body may update the object store or raise",
+             "NpDf.setitem / Frame.setCol = `df[c] = ndarray`: update-or-append with pandas' order rule, positional, ValueError unless the lengths agree, stored "
+             "dtype kind 'f'; `polynomial_detrend(df[col].values, order=order)` inside df_detrend is a CALL of the translated Gen.polynomial_detrend (np.polyfit "
+             "stays its contract parameter; in the differential run the driver answers it from NumPy's coefficients for the array nearest to the one asked about)"]
 ASSUMPTIONS = ["theorems are over the reals; floating-point rounding is covered by the stated tolerances (forward bounds scaled by the data), not by theorem",
                "the RMS property theorems (spec, monotone, additive, super-additive) assume a strictly increasing frequency grid; for EVERY grid (unsorted, "
                "duplicates) translated code = hand model is proved (gen_integral_rms_eq_model) and the real code is tied to both by the differential runs",
@@ -949,7 +963,12 @@ def correspondence(ctx) -> C.Part:
             P.sample({"op": "detrend0", "n": n, "kind": kind, "impl": vi[:4].tolist(), "model": vm[:4].tolist()})
     # generated code (Gen/Rms.lean, translated from the current source) vs the functions it was generated from; the child generator is
     # seeded by ONE integer drawn after the streams above, so those are unchanged
-    gen_differential(ctx, P, np.random.default_rng(int(rng.integers(0, 2 ** 62))), gen_rms_cases, gen_det_cases)
+    crng = np.random.default_rng(int(rng.integers(0, 2 ** 62)))
+    gen_differential(ctx, P, crng, gen_rms_cases, gen_det_cases)
+    # region DfWrappers: the WHOLE df_detrend as translated vs the real one on generated pandas frames (child generator of the child: the
+    # streams above are unchanged)
+    from ..regions import df_wrappers as DFW
+    DFW.differential(P, ctx, np.random.default_rng(int(crng.integers(0, 2 ** 62))), "detrend")
     return P
 
 
